@@ -449,10 +449,16 @@ func normalise(prog *ssa.Program) (map[*ssa.Function]bool, *ssa.VerifNorm, []str
 					why[fn] = "called through a closure value"
 					break
 				}
-				if e.Caller.Func.Synthetic != "" {
-					ok = false
-					why[fn] = "used as a method value or through a wrapper (" + e.Caller.Func.String() + ")"
-					break
+				if syn := e.Caller.Func.Synthetic; syn != "" {
+					// a pointer-receiver/promotion wrapper that nothing calls is no use of the method;
+					// a bound-method closure or thunk means the method's value is taken
+					if strings.HasPrefix(syn, "wrapper ") && len(e.Caller.In) == 0 {
+						ncall-- // not a real call site
+					} else {
+						ok = false
+						why[fn] = "used as a method value or through a wrapper (" + e.Caller.Func.String() + ")"
+						break
+					}
 				}
 				ncall++
 			}
